@@ -205,11 +205,14 @@ func init() {
 		Cases: func(t string) int { return tierN(t, 10000, 200000) },
 		Rule: "constructive chains/DAGs (depth 1-6, multi-input, struct/pointer/built/positional results, run-once) with each converter independently failing (p=0.3) and the target failing (p=0.15); " +
 			"oracle: Err() is identical (==) to the first failing body's error value, that event is the last of the call, the target did not run; no error => nothing failed; target error => Err() is it and Len() = non-error arity; " +
-			"a second call on the same objects re-checks run-once failures (cached error returned verbatim, body not re-run); in one case in five the failing bodies return an error VALUE of type *ErrArgumentUnsatisfied (taken from an inner unsatisfiable call), which must come back verbatim all the same; in one case in six they return a non-nil error whose dynamic value is a zero value (stateless sentinel struct, integer code 0, typed nil pointer, empty string type). non-trivial = a failing converter actually executed",
+			"a second call on the same objects re-checks run-once failures (cached error returned verbatim, body not re-run); in one case in five the failing bodies return an error VALUE of type *ErrArgumentUnsatisfied (taken from an inner unsatisfiable call), which must come back verbatim all the same; one case in 25 lets 3-8 goroutines first-use one shared run-once converter whose first execution succeeds and any further one would fail (a failing execution on behalf of a call obliges that call to return its error); in one case in six they return a non-nil error whose dynamic value is a zero value (stateless sentinel struct, integer code 0, typed nil pointer, empty string type). non-trivial = a failing converter actually executed",
 		Assumptions: []string{"error identity is compared with == on the interface value (pointer identity of the generated error)"},
 		Run: func(c *CaseCtx) CaseResult {
 			var res CaseResult
 			r := caseRand(c.Seed, "C04", c.Idx)
+			if c.Idx%25 == 6 {
+				return runC04ConcurrentOnce(c, r)
+			}
 			multi := r.Intn(2) == 0
 			s, depth := Constructive(r, ChainCfg{MaxTgt: 3, MaxDepth: 1 + r.Intn(6), MultiIn: multi, Cycles: !multi && r.Intn(3) == 0,
 				Distract: 2, FailP: 0.3, OnceP: 0.15, BuiltP: 0.2, Subtypes: r.Intn(2) == 0, Ifaces: r.Intn(2) == 0, ErrP: 0.5, DistractIn: 1})
